@@ -77,7 +77,7 @@ def evaluate(expr, env):
         if t == "+":
             return primary()
         if t.isdigit():
-            return int(t)
+            return int(t, 8) if (len(t) > 1 and t[0] == "0") else int(t)  # a leading 0 makes a C literal octal
         return env[t]
 
     def muldiv():
@@ -124,6 +124,14 @@ def enum_specs(level):
         for s in seconds:
             for t in thirds:
                 specs.append([f, s, t])
+    # doubly nested groups: a parenthesised group whose contents begin and end with a parenthesised group
+    for f in ("3", "-5"):
+        for e in ("2 * ((@0 - 1) + (@0 - 2))", "@0 - ((@0) - (1))", "((@0 + 1)) * 2", "((@0 + 1) * (@0 - 1))", "7 - ((2) + (@0))", "((@0))", "-((@0 - 1) - (2))",
+                  "(((@0 - 1)) + ((2)))* 3", "12 / ((@0 + 1) + (2))"):
+            specs.append([f, e, None])
+    # literal spellings and doubled signs
+    for e in (["010"], ["07", None], ["017", None, "@0 + 1"], ["1", "@0 + 010"], ["1", "010 * @0", None], ["1", "@0 - -@0 * 2"], ["2", "@0 + +@0"], ["2", "- -@0"], ["2", "-(-@0)"], ["2", "+ -@0"], ["0"], ["00"]):
+        specs.append(e)
     # four and five members: every mix of implicit / literal / expression-valued members, so that the
     # running "last explicit value + offset" state of the emitters is exercised across several resets
     kinds = [lambda i: None, lambda i: str(3 * i + 1), lambda i: ("@%d + 1" % (i - 1)) if i else "1 + 1",
